@@ -105,6 +105,44 @@ def in_domain_bin(op, a, b, b_is_int_const):
 #   refs: ["obj", id] | ["const", number] | ["pair", v, e] (a (value, error) tuple operand: creates a measurement)
 # every step creates exactly one NEW object except a "pair" operand, which creates one more before it.
 
+NUMBER_TYPES = ["np.float64", "np.float32", "np.int64", "np.int8", "np.int32", "Fraction", "np.float16", "bool"]
+
+
+def typed_number(x, tag):
+    """the number x (exactly representable in the tagged type) as an object of that type; None: as it is"""
+    if tag is None:
+        return x
+    import numpy as np
+    if tag == "Fraction":
+        return Fraction(x)
+    if tag == "bool":
+        return bool(x)
+    return getattr(np, tag[3:])(x)
+
+
+def number_tag(rng, c):
+    """a type in which the constant c is exactly representable (or None: plain int / float)"""
+    if rng.random() > 0.2:
+        return None
+    import numpy as np
+    cands = []
+    for tag in NUMBER_TYPES:
+        try:
+            if tag == "bool":
+                ok = c in (0, 1)
+            elif tag == "Fraction":
+                ok = True
+            elif "int" in tag:
+                ok = float(c).is_integer() and abs(c) < 100
+            else:
+                ok = float(getattr(np, tag[3:])(c)) == float(c)
+        except (OverflowError, ValueError):
+            ok = False
+        if ok:
+            cands.append(tag)
+    return rng.choice(cands) if cands else None
+
+
 class World:
     """executes a program on the implementation, keeping python objects by model id"""
 
@@ -126,13 +164,23 @@ class World:
         if ref[0] == "obj":
             return self.objs[ref[1]], ["obj", ref[1]], None
         if ref[0] == "const":
-            return ref[1], ["const", ref[1]], None
+            return typed_number(ref[1], ref[2] if len(ref) > 2 else None), ["const", ref[1]], None
         if ref[0] == "pair":
             return (ref[1], ref[2]), None, ("meas", float(ref[1]), float(ref[2]))
         raise ValueError(ref)
 
     def run_step(self, st):
         qq = q()
+        if st[0] == "read":
+            # the quantity is evaluated (value, uncertainty, a derivative) BEFORE later steps use it as an operand:
+            # whatever the library buffers at this point must not leak into the results built on top of it
+            r = self.objs[st[1]]
+            with warnings.catch_warnings():
+                warnings.simplefilter("ignore")
+                _ = r.value, r.error
+                for m in self.measurement_ids()[:2]:
+                    r.derivative(self.objs[m])
+            return None
         if st[0] == "meas":
             m = qq.Measurement(st[1], st[2])
             return self._register(m, ("meas", float(st[1]), float(st[2])))
@@ -206,6 +254,7 @@ def gen_program(rng, n_meas=None, n_ops=None, rational_only=False, allow_pairs=T
     n_ops = n_ops or rng.randrange(1, 9)
     steps, vals, kinds = [], [], []      # vals: float value of each object id
     hidden = set()                       # intermediate results the harness holds no reference to
+    small_scale = rng.random() < 0.12    # every uncertainty of the program far below any absolute tolerance (1e-8 ...)
     for _ in range(n_meas):
         v = dyadic(rng, -3, 8)
         if abs(v) < 0.25:
@@ -214,9 +263,13 @@ def gen_program(rng, n_meas=None, n_ops=None, rational_only=False, allow_pairs=T
             v = 0.0                        # a central value of exactly 0 (inside the domain of + - * neg and whole powers >= 1)
         elif rng.random() < 0.1:
             v = rng.choice([10.0, 1.0, 2.0, -1.0, 100.0, 10.0])     # numbers a shortcut might single out (bases, units)
+        elif vals and rng.random() < 0.15:
+            v = rng.choice(vals)           # a DISTINCT measurement with the same central value as an earlier one
         e = rng.choice([0.0, 0.125, 0.25, 0.5, 0.0625, 1.0, dyadic(rng, -4, 1) ** 2])
         if rng.random() < 0.1:
             e = rng.choice([2.0 ** -14, 2.0 ** -17, 3 * 2.0 ** -16, 2.0 ** -20])   # small against every absolute tolerance
+        if small_scale and e > 0:
+            e = rng.choice([2.0 ** -14, 2.0 ** -15, 3 * 2.0 ** -16, 5 * 2.0 ** -17])
         steps.append(["meas", v, abs(e)])
         vals.append(v)
         kinds.append("meas")
@@ -282,10 +335,12 @@ def gen_program(rng, n_meas=None, n_ops=None, rational_only=False, allow_pairs=T
             ra, rb, a, b = ["obj", i], ["obj", j], vals[i], vals[j]
         elif form == "oc":
             c = const()
-            ra, rb, a, b = ["obj", i], ["const", c], vals[i], c
+            tag = number_tag(rng, c)
+            ra, rb, a, b = ["obj", i], (["const", c, tag] if tag else ["const", c]), vals[i], c
         elif form == "co":
             c = const()
-            ra, rb, a, b = ["const", c], ["obj", j], c, vals[j]
+            tag = number_tag(rng, c)
+            ra, rb, a, b = (["const", c, tag] if tag else ["const", c]), ["obj", j], c, vals[j]
         elif form == "op":
             p = pair()
             ra, rb, a, b = ["obj", i], p, vals[i], p[1]
@@ -311,6 +366,8 @@ def gen_program(rng, n_meas=None, n_ops=None, rational_only=False, allow_pairs=T
         vals.append(nv)
         kinds.append("der")
         made += 1
+        if rng.random() < 0.2:
+            steps.append(["read", len(vals) - 1])
     # correlations between measurements with non-zero uncertainty (explicit measurements only)
     # the matrix is kept diagonally dominant (hence positive semi-definite: a jointly non-physical assignment makes the
     # propagated variance negative, which the library rejects)
@@ -341,6 +398,11 @@ def execute(steps, corr, corr_after=False):
     if corr_after:
         for i, j, r in corr:
             q().set_correlation(w.objs[i], w.objs[j], r)
+        if corr and any(s[0] == "read" for s in steps):
+            # results that were read before the correlations were set keep their buffered numbers until they are
+            # recalculated (C05): bring them up to date, the law is stated for the current correlations
+            for k in w.derived_ids():
+                w.objs[k].recalculate()
     return w
 
 
